@@ -65,7 +65,7 @@ impl VecModel {
         let mut bad = None;
         for f in &out.fails {
             if f.class == Class::Machinery { stats.machinery.push(format!("{} {:?} {:?}: {} {}", self.runner.name(), st, e, f.kind, f.detail)); continue; }
-            if !edges::reports(self.prop, f.class, e) { continue; }
+            if !edges::reports(self.prop, f.class, f.kind, e) { continue; }
             let sig = signature(self.prop, f, e);
             if self.known.contains(&sig) {
                 let ent = stats.known_hits.entry(sig).or_insert((0, f.detail.clone()));
